@@ -16,7 +16,10 @@ def stepStmt (st : Init) (known : List (Str × List IGate)) (s : Stmt) :
   | .ifc c k op =>
     match regFind st.cregs c with
     | none => .error .key
-    | some (s0, n) => qopAdd st known (some ((List.range n).map (s0 + ·))) (some k) true op
+    | some (s0, n) =>
+      if condSkipped n k then (qopAdd st known none none true op).map (fun r => ([], r.2))
+      else qopAdd st known (some ((List.range n).map (s0 + ·))) (some (condValue n k)) true op
+  | .barrier qs => if Gen.barrierChecked then (barrierCheck st qs).map (fun _ => ([], known)) else .error .syntax
   | _ => .error .syntax
 
 def IsErr {α} (r : Except Err α) : Prop := ∃ e, r = .error e
@@ -60,8 +63,8 @@ theorem importProgram_error (rest : List Stmt) (st : Init) (hi : initPass rest {
 /-! ## statement-level refusals -/
 
 /-- a register argument that cannot be resolved makes `_regs_processor` raise -/
-theorem resolveQs_error (st : Init) (args : List Arg) (a : Arg) (ha : a ∈ args)
-    (h : IsErr (resolveQ st a)) : ∀ ex, IsErr (resolveQs st args ex) := by
+theorem resolveQs_error (st : Init) (chk : Bool) (args : List Arg) (a : Arg) (ha : a ∈ args)
+    (h : IsErr (resolveQ st a)) : ∀ ex, IsErr (resolveQs st chk args ex) := by
   induction args with
   | nil => cases ha
   | cons b bs ih =>
@@ -80,19 +83,26 @@ theorem resolveQs_error (st : Init) (args : List Arg) (a : Arg) (ha : a ∈ args
           simp only [resolveQs, hb]
           split
           · exact ⟨.value, rfl⟩
-          · obtain ⟨e, he⟩ := ih hmem l.length
+          · obtain ⟨e, he⟩ := ih hmem (exAfter l.length)
             exact ⟨e, by simp [he]⟩
 
 theorem regSet_error (st : Init) (args : List Arg) (a : Arg) (ha : a ∈ args)
     (h : IsErr (resolveQ st a)) : IsErr (regSet st args) := by
-  obtain ⟨e, he⟩ := resolveQs_error st args a ha h 0
+  obtain ⟨e, he⟩ := resolveQs_error st true args a ha h none
   exact ⟨e, by simp [regSet, he]⟩
 
 theorem gateAdd_error_of_regSet (st : Init) (known : List (Str × List IGate)) (name : Str) (ps : List Expr)
     (args : List Arg) (cc : Option (List Nat)) (cv : Option Nat) (h : IsErr (regSet st args)) :
     IsErr (gateAdd st known name ps args cc cv) := by
   obtain ⟨e, he⟩ := h
-  exact ⟨e, by simp [gateAdd, he]⟩
+  unfold IsErr gateAdd
+  rw [he]
+  cases e
+  case type =>
+    simp only []
+    repeat' split
+    all_goals exact ⟨_, rfl⟩
+  all_goals exact ⟨_, rfl⟩
 
 /-- undeclared register -/
 theorem resolveQ_undeclared (st : Init) (a : Arg) (r : Str) (ha : a = .whole r ∨ ∃ i, a = .idx r i)
